@@ -159,4 +159,44 @@ inline void installAllManagers(QXmppClient &c, Storages &st, bool withDefaults)
     c.addNewExtension<QXmppUserTuneManager>();
 }
 
+// each bundled manager alone (index into this table); returns the name
+struct OneManager {
+    const char *name;
+    std::function<void(QXmppClient &, Storages &)> install;
+};
+inline const std::vector<OneManager> &managerTable()
+{
+    static const std::vector<OneManager> t = {
+        { "Roster", [](QXmppClient &c, Storages &) { c.addNewExtension<QXmppRosterManager>(&c); } },
+        { "VCard", [](QXmppClient &c, Storages &) { c.addNewExtension<QXmppVCardManager>(); } },
+        { "Version", [](QXmppClient &c, Storages &) { c.addNewExtension<QXmppVersionManager>(); } },
+        { "Discovery", [](QXmppClient &c, Storages &) { c.addNewExtension<QXmppDiscoveryManager>(); } },
+        { "EntityTime", [](QXmppClient &c, Storages &) { c.addNewExtension<QXmppEntityTimeManager>(); } },
+        { "PubSub", [](QXmppClient &c, Storages &) { c.addNewExtension<QXmppPubSubManager>(); } },
+        { "AccountMigration", [](QXmppClient &c, Storages &) { c.addNewExtension<QXmppAccountMigrationManager>(); } },
+        { "Archive", [](QXmppClient &c, Storages &) { c.addNewExtension<QXmppArchiveManager>(); } },
+        { "Atm", [](QXmppClient &c, Storages &st) { c.addNewExtension<QXmppAtmManager>(&st.atm); } },
+        { "Attention", [](QXmppClient &c, Storages &) { c.addNewExtension<QXmppAttentionManager>(); } },
+        { "Blocking", [](QXmppClient &c, Storages &) { c.addNewExtension<QXmppBlockingManager>(); } },
+        { "Bookmark", [](QXmppClient &c, Storages &) { c.addNewExtension<QXmppBookmarkManager>(); } },
+        { "CallInvite", [](QXmppClient &c, Storages &) { c.addNewExtension<QXmppCallInviteManager>(); } },
+        { "CarbonV1", [](QXmppClient &c, Storages &) { c.addNewExtension<QXmppCarbonManager>(); } },
+        { "CarbonV2", [](QXmppClient &c, Storages &) { c.addNewExtension<QXmppCarbonManagerV2>(); } },
+        { "ExternalServiceDiscovery", [](QXmppClient &c, Storages &) { c.addNewExtension<QXmppExternalServiceDiscoveryManager>(); } },
+        { "JingleMessageInitiation", [](QXmppClient &c, Storages &) { c.addNewExtension<QXmppJingleMessageInitiationManager>(); } },
+        { "Mam", [](QXmppClient &c, Storages &) { c.addNewExtension<QXmppMamManager>(); } },
+        { "MessageReceipt", [](QXmppClient &c, Storages &) { c.addNewExtension<QXmppMessageReceiptManager>(); } },
+        { "Mix", [](QXmppClient &c, Storages &) { c.addNewExtension<QXmppDiscoveryManager>(); c.addNewExtension<QXmppPubSubManager>(); c.addNewExtension<QXmppMixManager>(); } },
+        { "Moved", [](QXmppClient &c, Storages &) { c.addNewExtension<QXmppDiscoveryManager>(); c.addNewExtension<QXmppPubSubManager>(); c.addNewExtension<QXmppMovedManager>(); } },
+        { "Muc", [](QXmppClient &c, Storages &) { c.addNewExtension<QXmppMucManager>(); } },
+        { "Registration", [](QXmppClient &c, Storages &) { c.addNewExtension<QXmppRegistrationManager>(); } },
+        { "Rpc", [](QXmppClient &c, Storages &) { c.addNewExtension<QXmppRpcManager>(); } },
+        { "Transfer", [](QXmppClient &c, Storages &) { auto *tm = c.addNewExtension<QXmppTransferManager>(); tm->setSupportedMethods(QXmppTransferJob::InBandMethod); } },
+        { "UploadRequest", [](QXmppClient &c, Storages &) { c.addNewExtension<QXmppUploadRequestManager>(); } },
+        { "UserLocation", [](QXmppClient &c, Storages &) { c.addNewExtension<QXmppPubSubManager>(); c.addNewExtension<QXmppUserLocationManager>(); } },
+        { "UserTune", [](QXmppClient &c, Storages &) { c.addNewExtension<QXmppPubSubManager>(); c.addNewExtension<QXmppUserTuneManager>(); } },
+    };
+    return t;
+}
+
 }   // namespace tc
